@@ -2,6 +2,7 @@
 //! and records traces of the real library for TLC to validate (impl -> spec).
 mod codec;
 mod conc;
+mod record;
 mod refeval;
 mod signet;
 
@@ -146,10 +147,40 @@ fn replay(args: &[String]) -> i32 {
     }
 }
 
+fn record_cmd(args: &[String]) -> i32 {
+    let driver = arg(args, "--driver").expect("--driver");
+    let out_path = arg(args, "--out").expect("--out");
+    let seed: u64 = arg(args, "--seed").unwrap_or("0").parse().unwrap();
+    let events: usize = arg(args, "--events").unwrap_or("500").parse().unwrap();
+    let mix = arg(args, "--mix").unwrap_or("all");
+    let groups: Vec<String> = arg(args, "--groups").unwrap_or("G1,G2").split(',').map(|s| s.to_string()).collect();
+    let mut all = vec![];
+    for g in &groups {
+        let mut log = record::Log::new(g);
+        match (driver, g.as_str()) {
+            ("signet", "G1") => record::drive_signet::<Bls12381G1Impl>(&mut log, seed, events, mix),
+            ("signet", "G2") => record::drive_signet::<Bls12381G2Impl>(&mut log, seed.wrapping_add(1), events, mix),
+            (d, g) => {
+                eprintln!("unknown driver/group {d}/{g}");
+                return 2;
+            }
+        }
+        all.extend(log.events);
+    }
+    let mut out = std::fs::File::create(out_path).expect("create out");
+    for (i, e) in all.iter_mut().enumerate() {
+        e["seq"] = json!(i + 1);
+        writeln!(out, "{}", serde_json::to_string(e).unwrap()).unwrap();
+    }
+    println!("record: {} events", all.len());
+    0
+}
+
 fn main() {
     let args: Vec<String> = std::env::args().collect();
     let code = match args.get(1).map(|s| s.as_str()) {
         Some("replay") => replay(&args[2..]),
+        Some("record") => record_cmd(&args[2..]),
         _ => {
             eprintln!("usage: bh replay --vectors F --tables T --out O [--groups G1,G2] [--profiles 5,129] [--seed N]");
             2
